@@ -164,6 +164,12 @@ def build_circuit(edzed, case, hist, state):
     mk('s0', {'initdef'}, initdef=1)
     mk('a1', {'astop', 'initdef'}, {'stop_async': ('ok', 2.0)}, initdef=1, stop_timeout=5)
     mk('m2', {'maintask', 'initdef'}, initdef=1, stop_timeout=5)
+    if case.get('slow_stop'):
+        # an asynchronous clean-up that needs longer than the stop_timeout of the OTHER blocks
+        # (and has a longer time-out of its own): every block has its own limit, measured from
+        # the common start; a block whose limit is used up while this one is awaited is timed
+        # out (cancelled) all the same
+        mk('a6', {'astop', 'initdef'}, {'stop_async': ('ok', 6.0)}, initdef=1, stop_timeout=8)
     mk('i3', {'ainit', 'initdef'}, {'init_async': ('ok', T_INIT1)}, initdef=1, init_timeout=9)
     mk('i5', {'ainit', 'initdef'}, {'init_async': ('ok', T_INIT2)}, initdef=1, init_timeout=9)
     mk('p4', {'persist', 'initdef'}, initdef=1, persistent=True)
@@ -861,6 +867,8 @@ def gen(ctx):
                 c2['comp'] = 'small'
             if (i + p) % 3 == 0:
                 c2['early_init'] = True
+            if (i + p) % 4 == 1:
+                c2['slow_stop'] = True
             out.append(c2)
     for i, c in enumerate(out):
         if i % ctx.nshards == ctx.shard:
